@@ -84,7 +84,9 @@ def gen_plan(seed, tier):
       acts = G.gen_actions(r, nports, rich=True)
       in_port = r.wpick([(3, W.OFPP_NONE), (3, r.randint(1, nports))])
       if in_port != W.OFPP_NONE and r.chance(0.3):
-        acts.append(["output", W.OFPP_TABLE, 0])
+        # (anywhere in the list: what follows it must not see what the
+        # table did to its copy, nor the other way round)
+        acts.insert(r.randint(0, len(acts)), ["output", W.OFPP_TABLE, 0])
       steps.append({"op": "packet_out", "in_port": in_port, "acts": acts,
                     "f": fs})
     elif k == "po_buf":
